@@ -1,5 +1,5 @@
 /- C19 / FI: the contracts of `reverse_purge_hash_map` / `frequent_items_sketch` over the heap calculus. -/
-import DSProofs.Lemmas.LifeFiE
+import DSProofs.Lemmas.LifeFiG
 namespace DS.Life.Fi
 open DS.Life
 
@@ -164,5 +164,99 @@ theorem update_contract {P : Params} (hP : P.OK) {n0 : Nat} {ids0 : List Nat} {s
       (Sketch.update P s (.ext a) w)
       (fun s' h' => Usable P h' s'.map ∧ Owns h' ids0 (owned s.map) (owned s'.map) n0) :=
   fun h hn ⟨hu, hid⟩ => update_contract_wf hP h hn ⟨hu, hid, idsLt_of_fresh hfresh hn hid⟩
+
+/-- `serialize`; general form with `IdsLt` in the precondition -/
+theorem serialize_contract_wf {P : Params} {n0 : Nat} {ids0 : List Nat} {s : Sketch} :
+    TripleS n0 (foot [] n0) (fun h => Usable P h s.map ∧ h.ids = ids0 ∧ IdsLt h) (Sketch.serialize P s)
+      (fun _ h' => Usable P h' s.map ∧ (∀ b, b ∈ h'.ids ↔ b ∈ ids0)) := by
+  intro h hn ⟨hu, hid, hlt⟩
+  refine SafeF.mono (serialize_spec P n0 _ foot_ge s h h hn ⟨rfl, hu, hlt⟩) ?_
+  intro _ h' ⟨hids, hnx, hold⟩
+  exact ⟨Usable.local (fun b hb => hold b (hu.inv.owned_ids b hb).2) hnx hu, fun b => by rw [hids b, hid]⟩
+
+/-- `serialize` (extra hypothesis `hfresh`, needed because the temporaries are allocated and freed) -/
+theorem serialize_contract {P : Params} {n0 : Nat} {ids0 : List Nat} {s : Sketch} (hfresh : ∀ b, b ∈ ids0 → b < n0) :
+    TripleS n0 (foot [] n0) (fun h => Usable P h s.map ∧ h.ids = ids0 ∧ (∀ b, b ∈ owned s.map → b < n0))
+      (Sketch.serialize P s) (fun _ h' => Usable P h' s.map ∧ (∀ b, b ∈ h'.ids ↔ b ∈ ids0)) :=
+  fun h hn ⟨hu, hid, _⟩ => serialize_contract_wf h hn ⟨hu, hid, idsLt_of_fresh hfresh hn hid⟩
+
+/-- `deserialize(serialize(s))`; general form with `IdsLt` in the precondition -/
+theorem roundTrip_contract_wf {P : Params} (hP : P.OK) {n0 : Nat} {ids0 : List Nat} {s : Sketch} :
+    TripleS n0 (foot [] n0) (fun h => Usable P h s.map ∧ h.ids = ids0 ∧ IdsLt h) (Sketch.roundTrip P s)
+      (fun d h' => Usable P h' d.map ∧ Usable P h' s.map ∧ Owns h' ids0 [] (owned d.map) n0) := by
+  intro h hn ⟨hu, hid, hlt⟩
+  refine SafeF.mono (roundTrip_spec P hP n0 _ foot_ge s h h hn ⟨rfl, hu, hlt⟩) ?_
+  intro d h' ⟨hud, hids, hfr, hold⟩
+  have hnx : h.next ≤ h'.next := by
+    obtain ⟨k, _, _, _, _, _, ho, T, _⟩ := Usable.ptrs hud
+    have hk : k ∈ owned d.map := by rw [ho]; simp
+    have := hfr k hk
+    have := T.ltk
+    omega
+  refine ⟨hud, Usable.local (fun b hb => hold b (hu.inv.owned_ids b hb).2) hnx hu, ?_, ?_⟩
+  · intro b
+    rw [hids b, hid]
+    simp
+  · intro b hb
+    right
+    exact Nat.le_trans hn (hfr b hb)
+
+/-- `deserialize(serialize(s))` (extra hypothesis `hfresh`) -/
+theorem roundTrip_contract {P : Params} (hP : P.OK) {n0 : Nat} {ids0 : List Nat} {s : Sketch}
+    (hfresh : ∀ b, b ∈ ids0 → b < n0) :
+    TripleS n0 (foot [] n0) (fun h => Usable P h s.map ∧ h.ids = ids0 ∧ (∀ b, b ∈ owned s.map → b < n0))
+      (Sketch.roundTrip P s)
+      (fun d h' => Usable P h' d.map ∧ Usable P h' s.map ∧ Owns h' ids0 [] (owned d.map) n0) :=
+  fun h hn ⟨hu, hid, _⟩ => roundTrip_contract_wf hP h hn ⟨hu, hid, idsLt_of_fresh hfresh hn hid⟩
+
+/-- from the growth bookkeeping of the target to the `Owns` of target + source -/
+theorem merge_owns {h h' : Heap} {P : Params} {s s' o : Map} {n0 : Nat} (hn : n0 ≤ h.next)
+    (g : Grown h h' (owned s) (owned s') []) (hio : Inv P h o) (hdis : ∀ b, b ∈ owned s → b ∉ owned o) :
+    Owns h' h.ids (owned s ++ owned o) (owned s' ++ owned o) n0 := by
+  refine ⟨fun b => ?_, fun b hb => ?_⟩
+  · rw [g.ids b]
+    simp only [List.mem_append, not_or]
+    constructor
+    · rintro (⟨hb, hns⟩ | hb)
+      · by_cases hbo : b ∈ owned o
+        · exact Or.inr (Or.inr hbo)
+        · exact Or.inl ⟨hb, hns, hbo⟩
+      · exact Or.inr (Or.inl hb)
+    · rintro (⟨hb, hns, _⟩ | hb | hb)
+      · exact Or.inl ⟨hb, hns⟩
+      · exact Or.inr hb
+      · exact Or.inl ⟨(hio.owned_ids b hb).1, fun hm => hdis b hm hb⟩
+  · simp only [List.mem_append] at hb ⊢
+    rcases hb with hb | hb
+    · rcases g.fresh b hb with e | e
+      · exact Or.inl (Or.inl e)
+      · exact Or.inr (Nat.le_trans hn e)
+    · exact Or.inl (Or.inr hb)
+
+/-- `merge(const frequent_items_sketch&)`: the by-reference half of `merge_contract`; general form with `IdsLt` -/
+theorem merge_contract_partial_wf {P : Params} (hP : P.OK) {n0 : Nat} {ids0 : List Nat} {s o : Sketch} {byMove : Bool}
+    (hbm : byMove = false) :
+    TripleS n0 (foot (owned s.map ++ owned o.map) n0)
+      (fun h => Usable P h s.map ∧ Usable P h o.map ∧ (∀ b, b ∈ owned s.map → b ∉ owned o.map) ∧ h.ids = ids0 ∧ IdsLt h)
+      (Sketch.merge P s o byMove)
+      (fun s' h' => Usable P h' s'.map ∧ Inv P h' o.map ∧ (byMove = false → Usable P h' o.map) ∧
+        Owns h' ids0 (owned s.map ++ owned o.map) (owned s'.map ++ owned o.map) n0) := by
+  subst hbm
+  intro h hn ⟨hus, huo, hdis, hid, hlt⟩
+  refine SafeF.mono (merge_copy_spec P hP n0 _ foot_ge s o (fun b hb => foot_own (by simp [hb])) h h hn
+    ⟨rfl, hus, huo, hdis, hlt⟩) ?_
+  intro s' h' ⟨hus', huo', g⟩
+  exact ⟨hus', huo'.inv, fun _ => huo', hid ▸ merge_owns hn g huo.inv hdis⟩
+
+/-- `merge(const frequent_items_sketch&)` (extra hypothesis `hfresh`) -/
+theorem merge_contract_partial {P : Params} (hP : P.OK) {n0 : Nat} {ids0 : List Nat} {s o : Sketch} {byMove : Bool}
+    (hbm : byMove = false) (hfresh : ∀ b, b ∈ ids0 → b < n0) :
+    TripleS n0 (foot (owned s.map ++ owned o.map) n0)
+      (fun h => Usable P h s.map ∧ Usable P h o.map ∧ (∀ b, b ∈ owned s.map → b ∉ owned o.map) ∧ h.ids = ids0)
+      (Sketch.merge P s o byMove)
+      (fun s' h' => Usable P h' s'.map ∧ Inv P h' o.map ∧ (byMove = false → Usable P h' o.map) ∧
+        Owns h' ids0 (owned s.map ++ owned o.map) (owned s'.map ++ owned o.map) n0) :=
+  fun h hn ⟨hus, huo, hdis, hid⟩ =>
+    merge_contract_partial_wf hP hbm h hn ⟨hus, huo, hdis, hid, idsLt_of_fresh hfresh hn hid⟩
 
 end DS.Life.Fi
